@@ -284,8 +284,7 @@ def outputPacket (s : SwitchState) (port : Nat) : Res :=
   else if port = OFPP_FLOOD then .ok (s, [])
   else if port = OFPP_ALL then .ok (s, [])
   else if port = OFPP_CONTROLLER then
-    let (s', bid) := bufferPacket s
-    .ok (s', [.packetIn bid])
+    .ok ((bufferPacket s).1, [.packetIn (bufferPacket s).2])
   else if port = OFPP_TABLE then .error .unmodelled
   else .ok (s, [])
 
